@@ -381,7 +381,9 @@ func checkHeadered(c *fw.Ctx) {
 			args := call.Common().Args
 			id := fw.Sig(args[len(args)-3])
 			body := args[len(args)-2]
-			okBody := fw.DerivesFrom(body, fw.FlowSpec{IsSource: fw.IsResultOf(fw.NameIs("github.com/tidwall/sjson.DeleteBytes"), 0), All: true})
+			// (a loop over the keys to strip makes the body a phi of the input and the stripped bytes:
+			// one derivation suffices, the set of stripped keys is checked above)
+			okBody := fw.DerivesFrom(body, fw.FlowSpec{IsSource: fw.IsResultOf(fw.NameIs("github.com/tidwall/sjson.DeleteBytes"), 0)})
 			if containsAll(id, "gjson.GetBytes(param:headeredEventJSON", `"_event_id"`) && okBody && fw.Sig(args[len(args)-1]) == "param:redacted" {
 				ok = true
 			}
